@@ -88,7 +88,7 @@ def run(chk, tier, seed):
                 def feed():
                     with open(fifo, "wb") as fh:
                         fh.write(data)
-                th = threading.Thread(target=feed)
+                th = threading.Thread(target=feed, daemon=True)
                 th.start()
                 o3 = common.run([exe, "--dialect", d, "--listo=%d" % listo, fifo], stdin=b"", timeout=30)
                 th.join(timeout=10)
